@@ -254,3 +254,25 @@ package verifspec
 //@   param s
 //@   assigns nothing
 //@   ensures len(result) <= len(s)
+
+// ---- CatchOutput: the code a callback emitted is returned together with the position hint that was still pending when
+// the callback returned (a pending "no position" mark ends the mapping of the last statement; without it that mapping
+// would extend over whatever is emitted next).  flushedLen is the length of the output right after the flush.
+//@ extern compiler.funcContext.writePos
+//@   param fc
+//@   assigns fc.output, fc.posAvailable
+//@   ensures !fc.posAvailable
+//@   ensures old(fc.posAvailable) ==> len(fc.output) > len(old(fc.output))
+//@   ensures !old(fc.posAvailable) ==> len(fc.output) == len(old(fc.output))
+//@ func compiler.funcContext.CatchOutput
+//@ property C19
+//@   requires fc != nil && fc.pkgCtx != nil
+//@   requires -1000000000 <= fc.pkgCtx.indentation && fc.pkgCtx.indentation <= 1000000000 && -1000 <= indent && indent <= 1000
+//@   panics_only_if true
+//@   assigns fc.output, fc.posAvailable, fc.pkgCtx.indentation
+//@   ghost flushedLen = -1
+//@   oncall f: assert true
+//@   after writePos: ghost flushedLen = len(fc.output)
+//@   ensures !fc.posAvailable
+//@   ensures len(result) == flushedLen
+//@   ensures len(fc.output) == len(old(fc.output)) && fc.pkgCtx.indentation == old(fc.pkgCtx.indentation)
